@@ -1,12 +1,15 @@
 #!/usr/bin/env python3
 """Write coq/_CoqProject from the whitelist coq/FILES (finished files) plus the
 generated Gen/*.v files (fixed names, produced by constgen/effgen at every run)."""
-C = '/verif/coq'
+import os
+C = os.path.normpath(os.path.join(os.path.dirname(os.path.abspath(__file__)), '..', 'coq'))
 files = [l.strip() for l in open(C + '/FILES') if l.strip() and not l.startswith('#')]
 gen = ['Gen/CurveConsts.v', 'Gen/FfConsts.v', 'Gen/FfgConsts.v', 'Gen/GoldTables.v', 'Gen/PoseidonMeta.v'] + \
       ['Gen/PoseidonT%d.v' % t for t in range(2, 18)]
 if any(f.startswith('Proofs/FfRoutinesEq') for f in files):
     gen += ['Gen/FfRoutines.v', 'Gen/FfgRoutines.v']
+if any(f.startswith('Proofs/FfGlueEq') for f in files):
+    gen += ['Gen/FfGlue.v', 'Gen/FfgGlue.v']
 if any(f.startswith('Proofs/AsmProofs') for f in files):
     gen.append('Gen/FfAsm.v')
 if any(f.startswith('Proofs/BigIntEq') for f in files):
